@@ -78,7 +78,23 @@ static int __json_patch_apply_remove(struct json_pointer_get_result *jpres)
 	if (json_object_is_type(jpres->parent, json_type_array)) {
 		return json_object_array_del_idx(jpres->parent, jpres->index_in_parent, 1);
 	} else if (jpres->parent && jpres->key_in_parent) {
-		json_object_object_del(jpres->parent, jpres->key_in_parent);
+		// key_in_parent points into the JSON pointer, i.e. it is still escaped
+		char *key, *src, *dst;
+		if (!strchr(jpres->key_in_parent, '~')) {
+			json_object_object_del(jpres->parent, jpres->key_in_parent);
+			return 0;
+		}
+		if (!(key = strdup(jpres->key_in_parent)))
+			return -1;
+		for (src = dst = key; *src; src++, dst++) {
+			if (src[0] == '~' && (src[1] == '0' || src[1] == '1'))
+				*dst = (*++src == '0') ? '~' : '/';
+			else
+				*dst = *src;
+		}
+		*dst = '\0';
+		json_object_object_del(jpres->parent, key);
+		free(key);
 		return 0;
 	} else {
 		// We're removing the root object
